@@ -82,6 +82,8 @@ type sessionTags struct {
 	readers map[string]*rig.Reader
 	qfull   map[string]int
 	closes  []string // errors of the last connection / session closes (diagnostics)
+
+	unattributed int // stream write errors of sessions that no reader owns
 }
 
 func (st *sessionTags) onEvent(e rig.Event) {
@@ -108,8 +110,31 @@ func (st *sessionTags) onEvent(e rig.Event) {
 			if rd := st.readers[t]; rd != nil && strings.Contains(e.Err, "queue is full") {
 				rd.QueueFull()
 			}
+		} else {
+			st.unattributed++
 		}
 	}
+}
+
+// snapshot describes, for diagnostics only, the server sessions that belong to a reader.
+func (st *sessionTags) snapshot(tag string) []map[string]any {
+	st.mu.Lock()
+	var ss []*gortsplib.ServerSession
+	for s, t := range st.sessTag {
+		if t == tag {
+			ss = append(ss, s)
+		}
+	}
+	st.mu.Unlock()
+	var out []map[string]any
+	for _, s := range ss {
+		m := map[string]any{"state": s.State().String()}
+		if x := s.Stats(); x != nil {
+			m["outbound_rtp_packets"], m["outbound_bytes"] = x.OutboundRTPPackets, x.OutboundBytes
+		}
+		out = append(out, m)
+	}
+	return out
 }
 
 func runScenario(sc scenario) {
@@ -487,10 +512,12 @@ func runScenario(sc scenario) {
 		for i, f := range src.Flows {
 			dr := rand.New(rand.NewSource(sc.Seed*7 + int64(i)))
 			first := f.Written()
-			stuck := rig.Drain(f, dr, 200, write(f), drainRds, 3000, 2*time.Millisecond)
 			if sc.Topology == "B" {
+				// before the first sentinel is written: sentinels still on their way through hop 1
+				// when the drain completes are forwarded later and must not count as load
 				t2.Flow(f.Media, f.PT).MarkSentinelFrom(first)
 			}
+			stuck := rig.Drain(f, dr, 200, write(f), drainRds, 3000, 2*time.Millisecond)
 			for _, rd := range stuck {
 				fail("missing-packets/drain-never-completed",
 					fmt.Sprintf("reader %s never received any of 3000 sentinel packets written to media %d format %d after the load stopped", rd.Name, f.Media, f.PT),
@@ -501,6 +528,30 @@ func runScenario(sc scenario) {
 			rd.WindowClose("drain")
 		}
 	}
+
+	// diagnostics for the offline check (taken while everything is still up; not part of any verdict)
+	diag := map[string]map[string]any{}
+	rmu.Lock()
+	for _, rc := range readers {
+		if rc.closed || rc.pc.C == nil {
+			continue
+		}
+		d := map[string]any{"server_sessions": tags.snapshot(rc.name), "playing": rc.playing}
+		if err := rc.pc.Died(); err != nil {
+			d["client_error"] = err.Error()
+		} else if x := rc.pc.C.Stats(); x != nil {
+			d["client_inbound_rtp_packets"], d["client_inbound_bytes"] = x.Session.InboundRTPPackets, x.Session.InboundBytes
+		}
+		d["client_packets_lost_reported"], d["client_decode_errors"] = rc.pc.LostReported.Load(), rc.pc.DecodeErrs.Load()
+		if v := rc.pc.FirstDecodeErr.Load(); v != nil {
+			d["client_first_decode_error"] = v
+		}
+		diag[rc.name] = d
+	}
+	rmu.Unlock()
+	tags.mu.Lock()
+	run.Count("stream-write-errors-of-unowned-sessions", int64(tags.unattributed))
+	tags.mu.Unlock()
 
 	// shut down
 	rmu.Lock()
@@ -538,6 +589,9 @@ func runScenario(sc scenario) {
 		fs, st := rig.Check(t2, rc.pc.Rd)
 		account(sc, st, rc.pc.Rd)
 		for _, f := range fs {
+			if d := diag[rc.name]; d != nil && f.Detail != nil {
+				f.Detail["diag"] = d
+			}
 			fail(f.Key, fmt.Sprintf("reader %s: %s", rc.name, f.What), f.Detail)
 		}
 	}
